@@ -81,7 +81,12 @@ func TestVerifC17AuthzV1(t *testing.T) {
 		n++
 	}
 
-	didOf := func(k *tokenV2.VKey) string { return "did:nuts:" + k.KeyName() }
+	didOf := func(k *tokenV2.VKey) string { // names "method~id" are parties of another DID method with the same method-specific id
+		if i := strings.Index(k.KeyName(), "~"); i >= 0 {
+			return "did:" + k.KeyName()[:i] + ":" + k.KeyName()[i+1:]
+		}
+		return "did:nuts:" + k.KeyName()
+	}
 	requesters := []*tokenV2.VKey{tokenV2.VNewKey("p256", "alice"), tokenV2.VNewKey("ed", "bob"), tokenV2.VNewKey("p384", "dave")}
 	mallory := tokenV2.VNewKey("p256", "mallory")
 	source := map[string]crypto.PublicKey{}
@@ -95,6 +100,11 @@ func TestVerifC17AuthzV1(t *testing.T) {
 		register(k)
 		for _, sfx := range []string{"2", ".attacker.net", ":sub"} {
 			l := tokenV2.VNewKey("p256", k.KeyName()+sfx)
+			register(l)
+			lookalikes[k.KeyName()] = append(lookalikes[k.KeyName()], l)
+		}
+		for _, method := range []string{"web", "key", "NUTS", "nuts2"} { // same method-specific id, other method
+			l := tokenV2.VNewKey("p256", method+"~"+k.KeyName())
 			register(l)
 			lookalikes[k.KeyName()] = append(lookalikes[k.KeyName()], l)
 		}
